@@ -72,7 +72,7 @@ def run(ctx):
     jinja2 = lib.use_repo_jinja()
     ctx.extra["rule"] = RULE
     ctx.assumptions += [
-        "str.encode is a monoid homomorphism on the generated (surrogate-free) text (hypothesis of C10_dump_encoded)",
+        "codecs incremental encoders obey feed(a+b) = feed(a) then feed(b) on the generated (surrogate-free) text (hypothesis of C10_dump_encoded)",
         "a template's root render function yields the piece list observed through Template.generate",
     ]
     ctx.proof("C10")
@@ -183,6 +183,16 @@ def oracle_entry_points(jinja2, ts, main, data, tmpdir, ctx, autoescape=False):
         t.stream(**data).dump(bio, encoding="utf-8")
         if bio.getvalue() != ref.encode("utf-8"):
             return "dump(fp, utf-8) differs from render()"
+        # encodings with a byte order mark / encoder state: the dumped bytes must decode to the text
+        for enc in ("utf-16", "utf-8-sig", "utf-32", "utf-16-le"):
+            for bufsize in (None, 2, 3):
+                bio = io.BytesIO()
+                st = t.stream(**data)
+                if bufsize:
+                    st.enable_buffering(bufsize)
+                st.dump(bio, encoding=enc)
+                if bio.getvalue().decode(enc) != ref:
+                    return f"dump(fp, {enc}, buffer={bufsize}) does not decode to render()"
         sio = io.StringIO()
         t.stream(**data).dump(sio)
         if sio.getvalue() != ref:
